@@ -84,7 +84,7 @@ def run_c12(v):
 
 def run_c13(v):
     quick = v.tier == "quick"
-    s = _drive(v, "paging", {"C13"}, 60 if quick else 2000, 8 if quick else 10)
+    s = _drive(v, "paging", {"C13"}, 60 if quick else 5000, 8 if quick else 10)
     v.level = "exploration"
     v.coverage.update({
         "evaluations": s["variants"], "distinct_nontrivial": s["requests"],
@@ -120,7 +120,7 @@ def run_c30(v):
         r = lib.tlc_mc("MC_Composite.tla", _cfg(f"MC_Composite_{name}_run.cfg", MC_COMP.format(strict=strict, always=always)), timeout=1200, coverage=False)
         lib.expect_mc_violation(r, f"MC_Composite {name}", inv)
         refuted.append(name)
-    s = _drive(v, "walks", {"C30"}, 24 if quick else 1500, 12 if quick else 20)
+    s = _drive(v, "walks", {"C30"}, 24 if quick else 5000, 12 if quick else 20)
     v.coverage.update({
         "states": mc["distinct"], "transitions": mc["states"],
         "traces_validated_against_impl": s["scenarios"], "requests_judged": s["requests"], "pages_walked": s["pages"],
